@@ -362,9 +362,17 @@ func (e *Engine) libIntrinsic(fn *ssa.Function, full string, args []Value) (Valu
 	case "context.Background", "context.TODO":
 		return IfaceVal{typ: e.sh.marks.opaque, val: mkInt(0)}, true
 	case "github.com/google/go-cmp/cmp.Comparer":
-		return IfaceVal{typ: e.sh.marks.opaque, val: mkInt(1)}, true
+		return IfaceVal{typ: e.sh.marks.opaque, val: args[0].(IfaceVal).val}, true
 	case "github.com/google/go-cmp/cmp.Equal":
-		return e.cmpEqual(args[0].(IfaceVal), args[1].(IfaceVal)), true
+		var comparers []FuncVal
+		for _, o := range variadic(args[2]) {
+			if oi, ok := o.(IfaceVal); ok {
+				if fv, ok := oi.val.(FuncVal); ok {
+					comparers = append(comparers, fv)
+				}
+			}
+		}
+		return e.cmpEqual(args[0].(IfaceVal), args[1].(IfaceVal), comparers, 0), true
 	case "regexp.MustCompile":
 		slot := new(Value)
 		*slot = &RegexObj{pattern: e.mustStr(args[0], "regexp.MustCompile")}
@@ -386,20 +394,62 @@ func (e *Engine) libIntrinsic(fn *ssa.Function, full string, args []Value) (Valu
 }
 
 // cmpEqual implements go-cmp's Equal on the value shapes the repo passes to
-// it: comparable scalars, and *ordered.Map values via the registered
-// comparers (i.e. a recursive call of the repo's own Equal).
-func (e *Engine) cmpEqual(a, b IfaceVal) Value {
+// it: registered comparers first (the repo registers its own Equal for
+// ordered maps), then comparable scalars, slices and string-keyed maps.
+func (e *Engine) cmpEqual(a, b IfaceVal, comparers []FuncVal, depth int) *Term {
+	if depth > 30 {
+		unsupported("cmp.Equal nesting too deep")
+	}
 	if a.typ == nil || b.typ == nil {
 		return mkBool(a.typ == nil && b.typ == nil)
 	}
 	if !types.Identical(a.typ, b.typ) {
 		return tFalse
 	}
-	switch a.typ.Underlying().(type) {
+	for _, c := range comparers {
+		if c.fn != nil && c.fn.Signature.Params().Len() == 2 && types.Identical(c.fn.Signature.Params().At(0).Type(), a.typ) {
+			return e.callFuncVal(c, []Value{a.val, b.val}).(*Term)
+		}
+	}
+	box := func(t types.Type, v Value) IfaceVal {
+		if isIfaceType(t) {
+			return v.(IfaceVal)
+		}
+		return IfaceVal{typ: t, val: v}
+	}
+	switch u := a.typ.Underlying().(type) {
 	case *types.Basic:
 		return e.eq(a.val, b.val)
-	case *types.Interface:
-		return e.cmpEqual(a.val.(IfaceVal), b.val.(IfaceVal))
+	case *types.Slice:
+		as, bs := a.val.(SliceVal), b.val.(SliceVal)
+		if (as.arr == nil) != (bs.arr == nil) || as.len != bs.len {
+			return tFalse
+		}
+		r := tTrue
+		for i := 0; i < as.len; i++ {
+			r = tAnd(r, e.cmpEqual(box(u.Elem(), as.arr.elems[as.off+i]), box(u.Elem(), bs.arr.elems[bs.off+i]), comparers, depth+1))
+		}
+		return r
+	case *types.Map:
+		am, bm := a.val.(MapVal), b.val.(MapVal)
+		if (am.m == nil) != (bm.m == nil) {
+			return tFalse
+		}
+		if am.m == nil {
+			return tTrue
+		}
+		if len(am.m.entries) != len(bm.m.entries) {
+			return tFalse
+		}
+		r := tTrue
+		for _, en := range am.m.entries {
+			other := e.mapFind(bm.m, en.key)
+			if other == nil {
+				return tFalse
+			}
+			r = tAnd(r, e.cmpEqual(box(u.Elem(), en.val), box(u.Elem(), other.val), comparers, depth+1))
+		}
+		return r
 	}
 	unsupported("cmp.Equal on %v", a.typ)
 	return nil
